@@ -85,7 +85,7 @@ fn rand_ack_props(r: &mut Rng) -> Option<Vec<Prop>> {
 
 /// A spec-valid server packet of a random type, sized to fit the receive buffer.
 pub fn rand_valid(r: &mut Rng, post_connack: bool) -> SPacket {
-    let pid = *r.pick(&[1u16, 2, 3, 4, 5, 9, 255, 256, 65535]);
+    let pid = *r.pick(&[1u16, 2, 3, 4, 5, 9, 255, 256, 65535, 0x8080, 0xC1C1, 0xFF80]);
     let kinds: &[u8] = if post_connack { &[3, 3, 3, 4, 5, 6, 7, 9, 11, 13, 14] } else { &[2, 2, 2, 2, 3, 14, 13] };
     match *r.pick(kinds) {
         2 => {
@@ -744,7 +744,7 @@ impl Check for C08 {
         "exploration"
     }
     fn rule(&self) -> String {
-        "inbound byte strings are fed to the real client (a) right after CONNACK, with a QoS 1 publish, a QoS 2 publish, a SUBSCRIBE and an UNSUBSCRIBE in flight, and (b) in place of the CONNACK; an independent three-valued classifier (MustAccept with fields / MustReject with the rule / DontCare) judges every frame: MustAccept => no error and the fields observable unchanged (delivery, handle completion, Rejected(code), negotiated limits), MustReject => Peer(InvalidPacket), handle dead, no partial effect, DontCare => clean outcome only; panics (index, overflow, unwrap, debug_assert) anywhere are violations. Inputs: EXHAUSTIVE all byte strings of length <= 2 (quick) / <= 3 (thorough) in both contexts and all 256 first bytes x 9 remaining-length encodings; GENERATIVE valid packets of all ten server types with random legal property sets and boundary sizes, then 13 mutation operators; random read chunkings; one generated stream in three stalls at a random offset (inside a header, a length, a body, between two packets), the poll() waiting there is given up once or twice and later calls carry on; PUBLISH packets with remaining length 127/128/16383/16384/2097151/2097152 in a buffer they fit exactly, amply, or miss by one byte; torn-packet-then-reconnect: k bytes of a valid packet (or of the CONNACK; one case in three a PUBLISH with a Remaining Length of two or three bytes, half of those cut inside the length field) read, connection dropped / forgotten / connect() given up, same Session connected again, the new CONNACK and the next frame judged. A frame that fits the buffer but which the client gave up on after reading part of it is judged by the call that gave up. Non-trivial iff a frame was classified MustAccept with >=1 property or MustReject; distinct = (context, class, rule/type) x abstract trace.".into()
+        "inbound byte strings are fed to the real client (a) right after CONNACK, with a QoS 1 publish, a QoS 2 publish, a SUBSCRIBE and an UNSUBSCRIBE in flight, and (b) in place of the CONNACK; an independent three-valued classifier (MustAccept with fields / MustReject with the rule / DontCare) judges every frame: MustAccept => no error and the fields observable unchanged (delivery, handle completion, Rejected(code), negotiated limits), MustReject => Peer(InvalidPacket), handle dead, no partial effect, DontCare => clean outcome only; panics (index, overflow, unwrap, debug_assert) anywhere are violations. Inputs: EXHAUSTIVE all byte strings of length <= 2 (quick) / <= 3 (thorough) in both contexts and all 256 first bytes x 9 remaining-length encodings; GENERATIVE valid packets of all ten server types with random legal property sets and boundary sizes, then 13 mutation operators; random read chunkings; one generated stream in three stalls at a random offset (inside a header, a length, a body, between two packets), the poll() waiting there is given up once or twice and later calls carry on; PUBLISH packets with remaining length 127/128/16383/16384/2097151/2097152 in a buffer they fit exactly, amply, or miss by one byte; torn-packet-then-reconnect: k bytes of a valid packet (or of the CONNACK; one case in three a PUBLISH with a Remaining Length of two or three bytes, half of those cut inside the length field) read, connection dropped / forgotten / connect() given up, same Session connected again, the new CONNACK and the next frame judged. acknowledgements-of-any-kind-on-a-saturated-session: eight QoS 2 exchanges waiting for PUBCOMP plus unanswered requests in the freed slots, then well-formed acknowledgements of every kind for identifiers of every kind: no panic, no runaway call, the session reconnects. A frame that fits the buffer but which the client gave up on after reading part of it is judged by the call that gave up. Non-trivial iff a frame was classified MustAccept with >=1 property or MustReject; distinct = (context, class, rule/type) x abstract trace.".into()
     }
     fn assumptions(&self) -> Vec<String> {
         vec![
@@ -761,13 +761,14 @@ impl Check for C08 {
             Workload { name: "generative-pre", quick: 2000, thorough: 200_000 },
             Workload { name: "remaining-length-classes", quick: 36, thorough: 36 },
             Workload { name: "torn-packet-then-reconnect", quick: 1500, thorough: 150_000 },
+            Workload { name: "acknowledgements-of-any-kind-on-a-saturated-session", quick: 1500, thorough: 150_000 },
         ]
     }
     fn min_nontrivial(&self, tier: Tier) -> usize {
         if tier == Tier::Quick { 500 } else { 5000 }
     }
     fn required_counters(&self) -> Vec<&'static str> {
-        vec!["mustaccept_frames", "mustreject_frames", "bad_headers", "publishes_delivered_verbatim", "acks_matching_inflight", "connacks_accepted_verbatim", "exhaustive_inputs", "exact_fit_mustaccept_frames", "connects_after_refused_handshake", "length_class_boundary_frames", "reconnects_after_a_torn_packet", "connections_ended_inside_a_multi_byte_remaining_length"]
+        vec!["mustaccept_frames", "mustreject_frames", "bad_headers", "publishes_delivered_verbatim", "acks_matching_inflight", "connacks_accepted_verbatim", "exhaustive_inputs", "exact_fit_mustaccept_frames", "connects_after_refused_handshake", "length_class_boundary_frames", "reconnects_after_a_torn_packet", "connections_ended_inside_a_multi_byte_remaining_length", "saturated_sessions_fed_acknowledgements_of_any_kind"]
     }
     fn exhaustive(&self) -> bool {
         true
@@ -873,6 +874,62 @@ impl Check for C08 {
                     out.count("exhaustive_inputs", 1);
                     one_post(&s, Chunk::All, true, &mut out, "post");
                     one_pre(&s, Chunk::All, &mut out);
+                }
+            }
+            7 => {
+                // every table of the client is as full as it gets - eight QoS 2 exchanges waiting for
+                // PUBCOMP, SUBSCRIBE / UNSUBSCRIBE / QoS 1 publishes unanswered in the slots that
+                // freed - and the broker sends well-formed acknowledgements of every kind for
+                // identifiers of every kind (its own mix-up, or another client's traffic): whatever
+                // the client makes of them, it does not panic, and the session can be used on
+                RX_CELL.with(|c| c.set(128));
+                let cfg = CaseCfg { rx: rx(), tx: 2048, keepalive: 0, ..CaseCfg::default() };
+                let mut steps = vec![Step::Connect(ConnectSpec { policy: IoPolicy::default(), faults: vec![], connack: ConnackSpec::ok(SpMode::Force(false)), broker: BrokerPolicy { acks: AckMode::Never, ping: AckMode::Never, fail_pct: 0, longform_pct: 0 }, cancel_at: None })];
+                let n2 = *rng.pick(&[8usize, 8, 7, 6]);
+                for k in 0..n2 {
+                    steps.push(crate::checks::pubq(2, "sat", k as u32, 1));
+                }
+                for k in 0..n2 {
+                    steps.push(Step::Broker(BrokerAct::Send(SPacket::PubRec { pid: 1 + k as u16, reason: None, props: None })));
+                    steps.push(poll0());
+                    steps.push(poll0());
+                }
+                for k in 0..rng.range(1, 4) {
+                    steps.push(match rng.below(3) {
+                        0 => Step::Subscribe(SubSpec { filters: vec![FilterSpec { filter: "sat/#".into(), max_qos: 1, no_local: false, rap: false, rh: 0 }], props: vec![], cancel_at: None }),
+                        1 => Step::Unsubscribe(UnsubSpec { filters: vec!["sat".into()], props: vec![], cancel_at: None }),
+                        _ => crate::checks::pubq(1, "sat1", 20 + k as u32, 1),
+                    });
+                }
+                for _ in 0..rng.range(1, 4) {
+                    let pid = 1 + rng.below(14) as u16;
+                    let reason = *rng.pick(&[None, Some(0u8), Some(0x10), Some(0x80), Some(0x92)]);
+                    let pk = match rng.below(5) {
+                        0 => SPacket::PubAck { pid, reason, props: None },
+                        1 | 2 => SPacket::PubRec { pid, reason, props: None },
+                        3 => SPacket::PubComp { pid, reason, props: None },
+                        _ => if rng.chance(1, 2) { SPacket::SubAck { pid, props: vec![], codes: vec![reason.unwrap_or(0)] } } else { SPacket::UnsubAck { pid, props: vec![], codes: vec![reason.unwrap_or(0)] } },
+                    };
+                    steps.push(Step::Broker(BrokerAct::Send(pk)));
+                    steps.push(poll0());
+                    steps.push(poll0());
+                }
+                steps.push(crate::checks::pubq(1, "sat/after", 99, 1));
+                steps.push(poll0());
+                steps.push(Step::DropConn);
+                steps.push(Step::Connect(ConnectSpec { policy: IoPolicy::default(), faults: vec![], connack: ConnackSpec::ok(SpMode::Honest), broker: BrokerPolicy::default(), cancel_at: None }));
+                for _ in 0..6 {
+                    steps.push(poll0());
+                }
+                let (log, world) = run_script(&cfg, steps, seed);
+                let w = world.borrow();
+                out.evaluations += 1;
+                out.count("saturated_sessions_fed_acknowledgements_of_any_kind", 1);
+                out.nontrivial.push(hash_of(&abstract_trace(&log, &w)));
+                // (a panic is caught and reported by the runner; a call that never comes back by the
+                // transport's budget)
+                if w.watchdog_tripped {
+                    out.violations.push(viol("C08", "C08/saturated-session/call-exceeded-its-budget", "a call on a saturated session that was fed acknowledgements of every kind exceeded the transport's per-call budget".to_string()));
                 }
             }
             6 => {
